@@ -14,6 +14,7 @@ FS == INSTANCE FooterScan WITH MaxTok <- 0, Big <- 1000000, toks <- <<>>
 AD == INSTANCE Adaptive WITH Den <- 8, MaxLen <- 0, MaxScore <- 0, Thresholds <- {}, MinResults <- {}, c <- 0
 SN == INSTANCE Snippet WITH Gap <- 20, MaxChars <- 0, Windows <- {}, Maxes <- {}, OccStarts <- {}, OccLens <- {}, MaxOcc <- 0, c <- 0
 CP == INSTANCE Capsule WITH MaxChunks <- 0, c <- 0
+CD == INSTANCE Codecs WITH U <- {}, MaxEntries <- 0, c <- 0
 QL == INSTANCE QueryLang WITH MaxDepth <- 128, BaseAtoms <- {}, AstDepth <- 0, ast <- 0, expl <- FALSE
 
 Chk(nm, cond) == IF cond THEN TRUE ELSE (Debug /\ PrintT(<<"MISMATCH", l, nm>>))
@@ -91,6 +92,44 @@ CapsuleOk(i, o) ==
        /\ Chk("capsule.tamper_accepted", o.modified => ~o.ok)                           \* any modification makes unlock fail
        /\ DChk("capsule.model", o.ok = CP!Unlock(CP!CapOf(o.nchunks, i.tamper), o.nchunks)[1])
 
+(* ------------------------------- C30 ------------------------------------ *)
+\* The contract is C30's own statement (Chk); equality with the transcription beyond it is drift (DChk): a decoder that
+\* starts rejecting more, or an encoder that refuses more values, does not break the property.
+CodecOk(i, o) ==
+  /\ NoPanic(o)
+  /\ ~Has(o, "panic") =>
+     LET untouched == i.m.k = "none" IN
+     CASE i.codec = "header" ->
+            LET want == CD!HdrOutcome(i) IN
+            /\ Chk("codec.header.roundtrip", (untouched /\ CD!HdrValid(i.v)) => (o.enc /\ o.dec = CD!Acc(i.v)))
+            /\ Chk("codec.header.guard", (o.enc /\ i.m.k \in {"magic", "ver", "spec"}) => ~o.dec.ok)
+            /\ Chk("codec.header.invalid", (o.enc /\ o.dec.ok) => (CD!HdrValid(o.dec.v) /\ o.guards))
+            /\ Chk("codec.header.faithful", (o.enc /\ o.dec.ok) => o.dec.v = CD!HdrMutate(CD!HdrImage(i.v), i.m).v)
+            /\ DChk("codec.header.model", [enc |-> o.enc, dec |-> o.dec] = want)
+       [] i.codec = "footer" ->
+            LET want == CD!FtOutcome(i) IN
+            /\ Chk("codec.footer.roundtrip", untouched => o.dec = CD!Acc(i.v))
+            /\ Chk("codec.footer.guard", i.m.k \in {"magic", "size"} => ~o.dec.ok)
+            /\ Chk("codec.footer.faithful", o.dec.ok => (o.size /\ o.dec.v = CD!FtMutate(CD!FtImage(i.v), i.m).v))
+            /\ Chk("codec.footer.hash", o.hash_matches = (o.dec.ok /\ o.dec.v.h = i.toc))
+            /\ DChk("codec.footer.model", [dec |-> o.dec, hash_matches |-> o.hash_matches] = want)
+       [] i.codec = "toc" ->
+            LET want == CD!TocOutcome(i) IN
+            /\ Chk("codec.toc.roundtrip", untouched => (o.dec /\ o.same /\ o.verify = i.v.ck /\ o.frames = i.v.nf))
+            /\ Chk("codec.toc.guard", i.m.k \in {"trail", "cut"} => ~o.dec)
+            /\ Chk("codec.toc.checksum", i.m.k \in {"flip", "flipck"} => ~o.verify)
+            /\ Chk("codec.toc.different", (o.dec /\ i.m.k \in {"flip", "flipck"}) => ~o.same)
+            /\ DChk("codec.toc.model", [dec |-> o.dec, same |-> o.same, verify |-> o.verify] = want)
+       [] i.codec = "time" ->
+            LET want == CD!TiOutcome(i) IN
+            /\ Chk("codec.time.roundtrip", untouched => (o.dec = CD!Acc(CD!Sort(i.v.es)) /\ o.checksum_ok))
+            /\ Chk("codec.time.guard", i.m.k \in {"magic", "count", "length"} => ~o.dec.ok)
+            /\ Chk("codec.time.sorted", o.dec.ok => CD!IsSorted(o.dec.v))
+            /\ Chk("codec.time.checksum", o.checksum_ok => (o.dec.ok /\ o.dec.v = CD!Sort(i.v.es)))
+            /\ Chk("codec.time.faithful", o.dec.ok => LET r == CD!TiRead(CD!TiMutate(CD!TiImage(i.v.es), i.m)) IN (r.ok => o.dec.v = r.v))
+            /\ DChk("codec.time.model", [dec |-> o.dec, checksum_ok |-> o.checksum_ok] = want)
+       [] OTHER -> Chk("codec.unknown", FALSE)
+
 Init == l = 1
 Next == /\ l <= Len(Rec) /\ l' = l + 1
         /\ CASE Ev.ev = "footer" -> FooterOk(Ev.in, Ev.out)
@@ -98,6 +137,7 @@ Next == /\ l <= Len(Rec) /\ l' = l + 1
              [] Ev.ev = "snippet" -> SnippetOk(Ev.in, Ev.out)
              [] Ev.ev = "query" -> QueryOk(Ev.in, Ev.out)
              [] Ev.ev = "capsule" -> CapsuleOk(Ev.in, Ev.out)
+             [] Ev.ev = "codec" -> CodecOk(Ev.in, Ev.out)
              [] OTHER -> FALSE
 TraceSpec == Init /\ [][Next]_l
 
